@@ -14,6 +14,7 @@
 -/
 import LpModel.Basic
 import LpModel.C18.MT19937
+import LpModel.C14.Constants
 namespace Lp.C14
 
 abbrev U01 (G : Type) := G → Rat × G
@@ -66,7 +67,7 @@ def lcgN : Nat → Nat → Nat
   | 0, iran => iran
   | n + 1, iran => lcgN n (lcg iran)
 
-/-- with `dith = 0`: `s = Sign(0, ·) = 0`, so `rmid[j] = 0.5·lo + 0.5·hi` -/
+/-- with `dith = 0` (`K.dith`, theorem `miser_dith_zero`): `s = Sign(0, ·) = 0`, so `rmid[j] = 0.5·lo + 0.5·hi` -/
 def rmid (region : List Rat) (dim j : Nat) : Rat := (1 / 2) * at_ region j + (1 / 2) * at_ region (dim + j)
 
 /-- `n` plain samples in `region`: sum of values, points, generator (leaf and pre-sampling) -/
@@ -112,7 +113,8 @@ def splitResult (dim iran : Nat) : Option (Rat × Split) → Split
   | none => ⟨(dim * iran) / 175000, 1, 1⟩
 
 /-- choice of the bisection axis: the last `j` with the smallest `sigl + sigr` among the axes that
-    show a variation on both sides; `TINY`/`BIG` floors are omitted (they act only below 1e-30);
+    show a variation on both sides; `TINY`/`BIG` floors are omitted (they act only below 1e-30 / above 1e30:
+    `K.tinyMiser`, `K.bigMiser`, theorem `miser_floors_out_of_range`);
     fallback `jb = (ndim·iran)/175000` when no axis qualifies -/
 def chooseSplit (pw23 : Rat → Rat) (pre : List (List Rat × Rat)) (region : List Rat) (dim iran : Nat) : Split :=
   splitResult dim iran ((List.range dim).foldl (splitStep pw23 pre region dim) none)
@@ -134,17 +136,19 @@ structure MiserOut (G : Type) where
 
 /-- `Miser(func, region, npts, dith = 0, ave, var, PRNG)` with the file-static `iran` threaded.
     `none`: a (sub)call with `npts ≤ 0` (the C++ divides by zero there) or out of fuel.
-    `MNPT = 15, MNBS = 60, PFAC = 0.1`. -/
+    `MNPT`, `MNBS`, `PFAC` and the factor 2 of `2·MNPT` are `K.mnpt`, `K.mnbs`, `K.pfac`, `K.mnptTwice`:
+    `LpModel/C14/Constants.lean` is regenerated from src/Integration.cpp before every build (DESIGN.md §4.5;
+    currently 15, 60, 0.1, 2).  `int(npts * PFAC)` is the truncation of the exact product. -/
 def miser (f : List Rat → Rat) (pw23 : Rat → Rat) : Nat → List Rat → Int → Nat → G → Option (MiserOut G)
   | 0, _, _, _, _ => none
   | fuel + 1, region, npts, iran, g =>
     let dim := region.length / 2
     if npts ≤ 0 then none
-    else if npts < 60 then
+    else if npts < K.mnbs then
       let s := sampleN u01 f region npts.toNat g
       some ⟨sumVals s.1 / npts, s.1.map (·.1), npts, iran, s.2, false⟩
     else
-      let npre : Int := max (npts / 10) 15
+      let npre : Int := max (truncInt ((npts : Rat) * K.pfac)) K.mnpt
       let iran' := lcgN dim iran
       let pre := sampleN u01 f region npre.toNat g
       let sp := chooseSplit pw23 pre.1 region dim iran'
@@ -152,7 +156,7 @@ def miser (f : List Rat → Rat) (pw23 : Rat → Rat) : Nat → List Rat → Int
       let rgm := rmid region dim sp.jb
       let rgr := at_ region (dim + sp.jb)
       let fracl := rabs ((rgm - rgl) / (rgr - rgl))
-      let raw : Rat := 15 + ((npts - npre - 30 : Int) : Rat) * fracl * sp.siglb / (fracl * sp.siglb + (1 - fracl) * sp.sigrb)
+      let raw : Rat := (K.mnpt : Rat) + ((npts - npre - K.mnptTwice * K.mnpt : Int) : Rat) * fracl * sp.siglb / (fracl * sp.siglb + (1 - fracl) * sp.sigrb)
       let nptl : Int := truncInt raw
       let kn : Bool := decide (rabs (raw - ((raw + 1 / 2).floor : Rat)) * (2 : Rat) ^ (30 : Nat) < 1)
       let nptr : Int := npts - npre - nptl
@@ -271,20 +275,20 @@ structure VegasScalars where
   schi : Rat
   deriving DecidableEq, Repr
 
-/-- `init ≤ 0`, `init ≤ 1`, `init ≤ 2` blocks on the scalars (NDMX = 50); `ngOf` abstracts
+/-- `init ≤ 0`, `init ≤ 1`, `init ≤ 2` blocks on the scalars (NDMX = `K.ndmx`, regenerated from the source); `ngOf` abstracts
     `int(pow(ncall/2 + 0.25, 1/ndim))`; `vol` = product of the widths.  `ndo` is set to `nd` by the
     grid reset that follows when they differ. -/
 def vegasInitScalars (s : VegasScalars) (init : Int) (ndim : Nat) (ncall : Int) (ngOf : Int → Nat → Int) (vol : Rat) : VegasScalars :=
   let s := if init ≤ 0 then { s with mds := 1, ndo := 1 } else s
   let s := if init ≤ 1 then { s with si := 0, swgt := 0, schi := 0 } else s
   if init ≤ 2 then
-    let nd : Int := 50
+    let nd : Int := (K.ndmx : Int)
     let ng : Int := 1
     let (mds, ng, npg, nd) :=
       if s.mds ≠ 0 then
         let ng := ngOf ncall ndim
-        if 2 * ng - 50 ≥ 0 then
-          let npg := ng / 50 + 1
+        if 2 * ng - (K.ndmx : Int) ≥ 0 then
+          let npg := ng / (K.ndmx : Int) + 1
           let nd := ng / npg
           ((-1 : Int), npg * nd, npg, nd)
         else ((1 : Int), ng, s.npg, nd)
@@ -307,7 +311,7 @@ def vegasInitScalars (s : VegasScalars) (init : Int) (ndim : Nat) (ncall : Int) 
 def vegasXn (kg : Int) (u dxg : Rat) : Rat := ((kg : Rat) - u) * dxg + 1
 
 /-- BEFORE fix 66169b8: `ia[j] = max(min(int(xn), NDMX), 1)` (kept for the pre-fix witness `vegas_ia_overrun_witness`) -/
-def vegasIa (xn : Rat) : Nat := (max (min (truncInt xn) 50) 1).toNat
+def vegasIa (xn : Rat) : Nat := (max (min (truncInt xn) (K.ndmx : Int)) 1).toNat
 
 /-- as coded now (fix 66169b8): `ia[j] = max(min(int(xn), nd), 1)` — clamped to the number of bins in use -/
 def vegasIaNd (xn : Rat) (nd : Nat) : Nat := (max (min (truncInt xn) (nd : Int)) 1).toNat
@@ -328,22 +332,22 @@ structure VegasArrays where
   di : Nat → Nat → Rat
   kg : Nat → Int
 
-/-- `for(j = 0; j < cnt; j++) Rebin(rc, nd, r, xin, xi, j);` (NDMX = 50 cells per row) -/
+/-- `for(j = 0; j < cnt; j++) Rebin(rc, nd, r, xin, xi, j);` (NDMX = `K.ndmx` cells per row) -/
 def rebinRows (rc : Rat) (nd : Nat) (r : Nat → Rat) : Nat → (Nat → Nat → Rat) → Option (Nat → Nat → Rat)
   | 0, xi => some xi
   | j + 1, xi =>
     match rebinRows rc nd r j xi with
     | none => none
     | some xi1 =>
-      match rebin rc nd r (xi1 j) 50 with
+      match rebin rc nd r (xi1 j) K.ndmx with
       | none => none
       | some row => some (fun j' => if j' = j then row else xi1 j')
 
 /-- the array part of the `init ≤ 0` and `init ≤ 2` blocks; `ndo` = value of the static after the
     `init ≤ 0` block, `nd` = value computed by the `init ≤ 2` block (`vegasInitScalars`).
-    `none`: `ndim > MXDIM = 10` (out of bounds) or a failing `Rebin`. -/
+    `none`: `ndim > MXDIM = K.mxdim` (out of bounds) or a failing `Rebin`. -/
 def vegasInitArrays (a : VegasArrays) (init : Int) (ndim : Nat) (region : List Rat) (ndo nd : Nat) : Option VegasArrays :=
-  if ndim > 10 then none else
+  if ndim > K.mxdim then none else
   let a1 : VegasArrays := if init ≤ 0 then { a with xi := fun j i => if j < ndim ∧ i = 0 then 1 else a.xi j i } else a
   if init ≤ 2 then
     let a2 : VegasArrays := { a1 with dx := fun j => if j < ndim then at_ region (j + ndim) - at_ region j else a1.dx j }
@@ -370,11 +374,11 @@ structure VegasCells where
   k : Nat       -- number of cells `ng^ndim`
   deriving DecidableEq, Repr
 
-/-- cell arithmetic of the `init ≤ 2` block (`mds ≠ 0`, NDMX = 50) as a function of
+/-- cell arithmetic of the `init ≤ 2` block (`mds ≠ 0`, NDMX = `K.ndmx`) as a function of
     `ng0 = int(pow(ncall/2 + 0.25, 1/ndim))`, the budget and the dimension -/
 def vegasCells (ng0 ncall ndim : Nat) : VegasCells :=
-  let ng := if 2 * ng0 ≥ 50 then (ng0 / 50 + 1) * (ng0 / (ng0 / 50 + 1)) else ng0
-  let nd := if 2 * ng0 ≥ 50 then ng0 / (ng0 / 50 + 1) else 50
+  let ng := if 2 * ng0 ≥ K.ndmx then (ng0 / K.ndmx + 1) * (ng0 / (ng0 / K.ndmx + 1)) else ng0
+  let nd := if 2 * ng0 ≥ K.ndmx then ng0 / (ng0 / K.ndmx + 1) else K.ndmx
   ⟨ng, nd, max (ncall / ng ^ ndim) 2, ng ^ ndim⟩
 
 /-- integrand evaluations of one call: `itmx = 5` sweeps over all cells with `npg` points each -/
